@@ -729,7 +729,7 @@ func (s *state) alterType(b *sqlx.Builder, alter *changeGroup, t *schema.Table, 
 			Cmd:     drop,
 			Reverse: create,
 		})
-		toT, err := FormatType(c.To.Type.Type)
+		toT, err := s.formatType(c.To.Type.Type)
 		if err != nil {
 			return err
 		}
@@ -773,13 +773,8 @@ func (s *state) alterType(b *sqlx.Builder, alter *changeGroup, t *schema.Table, 
 		}
 		b.P("TYPE", f)
 	default:
-		var (
-			f   string
-			err error
-		)
-		if e, ok := c.To.Type.Type.(*schema.EnumType); ok {
-			f = s.enumIdent(e)
-		} else if f, err = FormatType(c.To.Type.Type); err != nil {
+		f, err := s.formatType(c.To.Type.Type)
+		if err != nil {
 			return err
 		}
 		b.P("TYPE", f)
